@@ -275,6 +275,37 @@ def roi_objects(kinds, family="autoware", targets="car_ped"):
     return Out(parts=parts, obs={"kept": len(out)})
 
 
+def positioned_2d(kinds, frame):
+    """2-D objects that carry a 3-D position (traffic lights): x/y and planar-distance bounds apply to the ego-relative
+    position, whatever the height; ego frame (no transforms) or a camera frame with its mounting transform."""
+    tl = TL_TARGETS["green_unknown_red"]
+    p = _lists(tl, kinds)
+    is_gt = flag("is_gt")
+    label = choose("o_label", [TL.GREEN, TL.RED, TL.UNKNOWN])
+    conf = real("o_conf", 0, 1)
+    if is_gt:
+        assume(conf == 1)
+    pos = (real("o_x", -200, 200), real("o_y", -200, 200), real("o_z", -20, 20))
+    if frame == "base_link":
+        fid, transforms, ego = FrameID.BASE_LINK, None, pos
+    else:  # camera mounted at t, yawed by +90 deg: p_ego = R p + t
+        t = (real("cam_tx", -5, 5), real("cam_ty", -5, 5), 1.5)
+        fid = FrameID.CAM_TRAFFIC_LIGHT
+        transforms = TransformDict(HomogeneousMatrix(t, build.mkrot((1, 0, 0, 1)), fid, FrameID.BASE_LINK))
+        ego = (-pos[1] + t[0], pos[0] + t[1], pos[2] + t[2])
+    obj = DynamicObject2D(0, fid, conf, Label(label, label.value), roi=(10, 20, 30, 40), uuid="u1", position=pos)
+    out = OF.filter_objects([obj], is_gt, target_labels=tl, transforms=transforms, **p)
+
+    class O:
+        pass
+
+    o = O()
+    o.label, o.conf, o.uuid, o.name, o.attributes, o.points = label, conf, "u1", label.value, [], 0
+    o.ex, o.ey = ego[0], ego[1]
+    parts = {"kept_iff_spec": L.Iff(len(out) == 1, spec_keep(o, is_gt, tl, dict(p, min_point_numbers=None)))}
+    return Out(parts=parts, obs={"kept": len(out)})
+
+
 def obligations(pid, tier):
     quick = tier == "quick"
     frames = [("base_link", "id"), ("map", "yaw_3_4_5"), ("map", "yaw_neg")]
@@ -305,6 +336,9 @@ def obligations(pid, tier):
                    + [dict(kinds=k, family="traffic_light", targets=t) for t in TL_TARGETS for k in [(), ("conf",), ("conf", "uuid")]],
                    desc="2-D objects: label/confidence/uuid criteria, Autoware and traffic-light label sets with and "
                         "without UNKNOWN as a target"),
+        Obligation("positioned_2d", positioned_2d,
+                   cases=[dict(kinds=k, frame=f) for f in ("base_link", "camera") for k in [("xy",), ("dist",), ("dist", "conf")]],
+                   desc="2-D objects carrying a 3-D position: x/y and planar-distance bounds on the ego-relative position"),
     ]
 
 
